@@ -293,3 +293,30 @@ Example q_producer_sleeps_when_full :
   q_pc (q_thr s 2%nat) = QPAsleep /\ q_cnt s = 1 /\ A_nf s = 1%nat.
 Proof. vm_compute. repeat split; reflexivity. Qed.
 
+
+(* ---------------- the two condition variables keep their waiters apart ---------------- *)
+(* What the counting invariants silently rely on: the waiters of cv_not_full are producers only
+   and those of cv_not_empty consumers only.  In the model a thread asleep on cv_not_full is at
+   QPAsleep (a producer program point), one asleep on cv_not_empty at QCAsleep; a notify on
+   cv_not_empty (issued by put, at QPSig) can only move a thread QCAsleep -> QCWoken, a notify on
+   cv_not_full (issued by take, at QCSig) only QPAsleep -> QPWoken: a wake token always reaches a
+   waiter for whom the state change it announces is the one it waits for.  With ONE condition
+   variable for both directions this fails (C03/Variants.v, abq_single_cv_deadlocks). *)
+Lemma abq_cv_waiters_homogeneous_all s t ch s' l u :
+  qstep s t ch = Some (s', l) -> u <> t -> q_thr s' u <> q_thr s u ->
+  (q_pc (q_thr s t) = QPSig /\ q_pc (q_thr s u) = QCAsleep /\ q_pc (q_thr s' u) = QCWoken) \/
+  (q_pc (q_thr s t) = QCSig /\ q_pc (q_thr s u) = QPAsleep /\ q_pc (q_thr s' u) = QPWoken).
+Proof.
+  intros Hs Hu Hch. unfold qstep in Hs.
+  destruct (Nat.leb (q_n s) t); [discriminate|]. cbv zeta in Hs.
+  destruct (q_pc (q_thr s t)) eqn:Epc; step_cases Hs; try discriminate; inv_some Hs;
+    cbn [q_thr qset qset_m qset_cnt] in Hch |- *;
+    try (rewrite upd_other in Hch by exact Hu; congruence).
+  - (* put's notify found a sleeper: a consumer *)
+    left. destruct (pick_waiter_some _ _ _ _ Heqo) as [_ Hw]. apply q_casleep_pc in Hw.
+    rewrite (upd_other _ t) in Hch |- * by exact Hu. unfold upd in *.
+    destruct (Nat.eqb_spec u n) as [E|E]; [subst u; repeat split; first [reflexivity | exact Hw | exact Epc]|exfalso; apply Hch; reflexivity].
+  - right. destruct (pick_waiter_some _ _ _ _ Heqo) as [_ Hw]. apply q_pasleep_pc in Hw.
+    rewrite (upd_other _ t) in Hch |- * by exact Hu. unfold upd in *.
+    destruct (Nat.eqb_spec u n) as [E|E]; [subst u; repeat split; first [reflexivity | exact Hw | exact Epc]|exfalso; apply Hch; reflexivity].
+Qed.
